@@ -360,6 +360,6 @@ def _resolve_attribute_annotation(  # noqa: C901, PLR0911, PLR0912, PLR0913
                         localns=localns,
                         recursion_guard=recursion_guard,
                     )
-                    for argument in get_args(other)
+                    for argument in get_args(annotation)
                 ],
             )
